@@ -2,6 +2,9 @@ package props
 
 import (
 	"fmt"
+	"os"
+	"reflect"
+	"strings"
 
 	"verifsim/core"
 )
@@ -29,7 +32,7 @@ func (c11) Assumptions() []string {
 	}
 }
 func (c11) Probes() []string {
-	return []string{"cut/page-header", "cut/page-body", "cut/footer", "cut/footer-len", "cut/tail-magic", "cut/clean-boundary", "cut/magic", "outcome/ctor-error", "rawbytes", "directed/trailer-coincidence-file", "codec/gzip", "codec/snappy", "codec/uncompressed"}
+	return []string{"cut/page-header", "cut/page-body", "cut/footer", "cut/footer-len", "cut/tail-magic", "cut/clean-boundary", "cut/magic", "outcome/ctor-error", "rawbytes", "directed/trailer-coincidence-file", "directed/embedded-trailer-file", "codec/gzip", "codec/snappy", "codec/uncompressed"}
 }
 func (c11) Runs(tier string) int {
 	if tier == "thorough" {
@@ -54,7 +57,14 @@ func (p c11) Run(runseed uint64, tier string, acc *Acc) []*core.Violation {
 		acc.Inc("rawbytes")
 	}
 	f, ok := genFile(r, o)
-	if r.Chance(1, 16) {
+	if r.Chance(1, 12) {
+		// embedded-trailer arm: since the reader checks the trailing magic, the only prefixes that get past
+		// the footer check are those that end in a readable trailer of their own
+		if ef := embeddedTrailerFile(r); ef != nil {
+			f, ok = ef, true
+			acc.Inc("directed/embedded-trailer-file")
+		}
+	} else if r.Chance(1, 16) {
 		// directed arm: hunt for a file in which a crash point in the trailer matters
 		if hf := huntTrailerCoincidence(r); hf != nil {
 			f, ok = hf, true
@@ -100,6 +110,8 @@ func (p c11) Run(runseed uint64, tier string, acc *Acc) []*core.Violation {
 			}
 		}
 	}
+	var riskyCuts []int
+	var riskyKinds []string
 	for cut := 0; cut < L; cut++ {
 		if L > 64<<10 && cut < L-4096 && !boundary[cut] && !r.Chance(1, 16) {
 			continue
@@ -107,6 +119,11 @@ func (p c11) Run(runseed uint64, tier string, acc *Acc) []*core.Violation {
 		kind := []string{"rs", "rsb", "rsx"}[(cut+int(runseed%3))%3]
 		cc := cut
 		c := &core.Case{Prop: "C11", Seed: runseed, W: f.W, SourceKind: kind, Cut: &cc}
+		if riskyCut(f.Data, cut) {
+			riskyCuts = append(riskyCuts, cut)
+			riskyKinds = append(riskyKinds, kind)
+			continue
+		}
 		v, rr, steps := p.check(c, f, limit)
 		acc.Evals++
 		acc.Steps += steps
@@ -134,8 +151,79 @@ func (p c11) Run(runseed uint64, tier string, acc *Acc) []*core.Violation {
 			}
 		}
 	}
+	// prefixes that end in the magic get past the footer check: read them in the sandbox
+	if len(riskyCuts) > 0 && len(vios) < 3 {
+		res, err := riskyRead(f.W.Shape, f.Data, riskyCuts, riskyKinds, limit)
+		if err != nil {
+			acc.Inc("sandbox/child-error")
+			acc.Unusable++
+		} else {
+			for i, cut := range riskyCuts {
+				r := res[cut]
+				acc.Evals++
+				acc.Steps += r.Steps
+				nontrivial++
+				acc.Inc("cut/ends-in-magic(sandboxed)")
+				acc.Inc("sandboxed-outcome/" + riskyKey(r))
+				if os.Getenv("C11_RISKY_SURVEY") != "" {
+					continue // maintenance: only count outcomes
+				}
+				cc := cut
+				c := &core.Case{Prop: "C11", Seed: runseed, W: f.W, SourceKind: riskyKinds[i], Cut: &cc}
+				if v := p.riskyVerdict(c, f, r); v != nil {
+					vios = append(vios, v)
+					if len(vios) >= 3 {
+						break
+					}
+				}
+			}
+		}
+	}
 	acc.Mark(f.Digest, nontrivial)
 	return vios
+}
+
+// riskyKey classifies a sandboxed outcome (panics by their innermost library frame).
+func riskyKey(r RiskyRes) string {
+	switch {
+	case r.Crash != "":
+		return "crash"
+	case r.Panic != "":
+		p := r.Panic
+		if i := strings.Index(p, " @ "); i >= 0 {
+			p = p[i+3:]
+		}
+		if i := strings.Index(p, " < "); i >= 0 {
+			p = p[:i]
+		}
+		return "panic-in-" + r.PanicAPI + "@" + p
+	case r.Hang:
+		return "hang"
+	case r.Reported:
+		return "error-reported"
+	}
+	return "accepted"
+}
+
+// riskyVerdict turns a sandboxed read of a prefix that ends in the magic into a verdict.
+func (p c11) riskyVerdict(c *core.Case, f *fileWL, r RiskyRes) *core.Violation {
+	mk := func(sig, detail string) *core.Violation {
+		return &core.Violation{Prop: "C11", Sig: "C11/" + sig + "/ends-in-magic",
+			Detail: fmt.Sprintf("%s [file %s of %d bytes cut at byte %d, right after bytes that are a Parquet trailer of their own; source=%s]", detail, f.W.HistoryString(), len(f.Data), *c.Cut, kindOr(c.SourceKind)), Case: c}
+	}
+	switch {
+	case r.Crash != "":
+		return mk("crash", "the reader killed the process: "+r.Crash)
+	case r.Panic != "":
+		return mk("panic", "reader panicked in "+r.PanicAPI+": "+r.Panic)
+	case r.Hang:
+		return mk("hang", "reader did not finish within the step cap")
+	case r.Reported:
+		return nil
+	case r.Runaway:
+		return mk("accepted", "no error reported and rows keep coming")
+	}
+	return mk("accepted", fmt.Sprintf("the truncated file was accepted: constructor nil, %d rows delivered, Error() nil", r.Rows))
 }
 
 func (p c11) check(c *core.Case, f *fileWL, limit int) (*core.Violation, *core.ReadResult, int) {
@@ -176,6 +264,13 @@ func (p c11) Check(c *core.Case) (*core.Violation, error) {
 	full, _ := baselineRead(f.W.Shape, f.Data, "rs", limit)
 	if full.Reported() || full.Panic != "" || full.Hang || full.Runaway {
 		return nil, fmt.Errorf("the complete file is not accepted by the reader")
+	}
+	if riskyCut(f.Data, *c.Cut) {
+		res, err := riskyRead(f.W.Shape, f.Data, []int{*c.Cut}, []string{kindOr(c.SourceKind)}, limit)
+		if err != nil {
+			return nil, err
+		}
+		return p.riskyVerdict(c, f, res[*c.Cut]), nil
 	}
 	v, _, _ := p.check(c, f, limit)
 	return v, nil
@@ -258,4 +353,124 @@ func huntTrailerCoincidence(r *core.Rng) *fileWL {
 		}
 	}
 	return nil
+}
+
+// embeddedTrailerFile builds a valid file one of whose string values is itself
+// a complete Parquet file of the same shape ("a table that archives an older
+// export of itself in a string column"). The prefix that ends right after that
+// value ends in FileMetaData|len|PAR1 and therefore passes the footer check.
+// The embedded file starts with the same first k batches as the outer file
+// (so its first k row groups ARE readable from the prefix, byte for byte),
+// continues with batches the outer file does not have, and ends with a batch of
+// more rows than the whole outer file holds: a reader cannot find that many
+// values before the embedded bytes, so the prefix is never a readable file and
+// reading it must end in a reported error - after delivering, possibly, the
+// rows of the first k row groups.
+func embeddedTrailerFile(r *core.Rng) *fileWL {
+	shape := allShapes[r.Intn(len(allShapes))]
+	sh := core.GetShape(shape)
+	page := r.Range(1, 6)
+	codec := core.Codecs[r.Pick(3, 2, 1)]
+	outer := &core.WriterSpec{Shape: shape, Page: page, Codec: codec}
+	total := 0
+	var batchEnd []int // index in outer.Ops just after each Write
+	for b, nb := 0, r.Range(1, 3); b < nb; b++ {
+		for i, k := 0, r.Range(1, 3); i < k; i++ {
+			outer.Ops = append(outer.Ops, core.AddOp(core.GenRec(r, sh.Type, core.Benign)))
+			total++
+		}
+		outer.Ops = append(outer.Ops, core.WriteOp())
+		batchEnd = append(batchEnd, len(outer.Ops))
+	}
+	outer.Ops = append(outer.Ops, core.CloseOp())
+	// the record that will hold the embedded file: the last one (the rest of the outer file is then missing
+	// from the prefix), sometimes the first
+	target := len(outer.Ops) - 1
+	for target >= 0 && outer.Ops[target].K != "add" {
+		target--
+	}
+	if r.Chance(1, 4) {
+		target = 0
+	}
+	// inner: the outer file's first k batches, as far as they do not contain the target record ...
+	inner := &core.WriterSpec{Shape: shape, Page: page, Codec: codec}
+	k := r.Range(0, len(batchEnd))
+	for k > 0 && batchEnd[k-1] > target {
+		k--
+	}
+	if k > 0 {
+		inner.Ops = append(inner.Ops, outer.Ops[:batchEnd[k-1]]...)
+	}
+	// ... then 0..2 batches of its own, then one that is larger than the whole outer file
+	for b, nb := 0, r.Range(0, 2); b < nb; b++ {
+		for i, n := 0, r.Range(1, 4); i < n; i++ {
+			inner.Ops = append(inner.Ops, core.AddOp(core.GenRec(r, sh.Type, core.Benign)))
+		}
+		inner.Ops = append(inner.Ops, core.WriteOp())
+	}
+	for i, n := 0, total+r.Range(2, 6); i < n; i++ {
+		inner.Ops = append(inner.Ops, core.AddOp(core.GenRec(r, sh.Type, core.Benign)))
+	}
+	inner.Ops = append(inner.Ops, core.WriteOp(), core.CloseOp())
+	iref, ok := refWrite(inner)
+	if !ok {
+		return nil
+	}
+	rec := outer.Ops[target].Val(sh)
+	rec2, done := setFirstString(rec, string(iref.Sink.Data), r.Intn(4))
+	if !done {
+		return nil
+	}
+	outer.Ops[target] = core.AddOp(rec2)
+	ref, ok := refWrite(outer)
+	if !ok {
+		return nil
+	}
+	f := &fileWL{W: outer, Ref: ref, Data: ref.Sink.Data, Want: core.Flatten(ref.Batches), Regions: sinkRegions(ref)}
+	f.Digest = core.HashBytes(append([]byte(outer.HistoryString()), f.Data...))
+	return f
+}
+
+// setFirstString returns a copy of rec in which the (skip+1)-th reachable
+// string (field, pointer target or first slice element) is replaced by s.
+func setFirstString(rec interface{}, s string, skip int) (interface{}, bool) {
+	cp := core.CopyRec(rec)
+	v := reflect.New(reflect.TypeOf(cp)).Elem()
+	v.Set(reflect.ValueOf(cp))
+	var targets []reflect.Value
+	var walk func(v reflect.Value)
+	walk = func(v reflect.Value) {
+		switch v.Kind() {
+		case reflect.String:
+			if v.CanSet() {
+				targets = append(targets, v)
+			}
+		case reflect.Ptr:
+			if v.IsNil() && v.CanSet() && (v.Type().Elem().Kind() == reflect.String || v.Type().Elem().Kind() == reflect.Struct) {
+				v.Set(reflect.New(v.Type().Elem()))
+			}
+			if !v.IsNil() {
+				walk(v.Elem())
+			}
+		case reflect.Slice:
+			if v.Len() == 0 && v.CanSet() && (v.Type().Elem().Kind() == reflect.String || v.Type().Elem().Kind() == reflect.Struct) {
+				v.Set(reflect.MakeSlice(v.Type(), 1, 1))
+			}
+			for i := 0; i < v.Len(); i++ {
+				walk(v.Index(i))
+			}
+		case reflect.Struct:
+			for i := 0; i < v.NumField(); i++ {
+				if v.Type().Field(i).PkgPath == "" {
+					walk(v.Field(i))
+				}
+			}
+		}
+	}
+	walk(v)
+	if len(targets) == 0 {
+		return nil, false
+	}
+	targets[skip%len(targets)].SetString(s)
+	return v.Interface(), true
 }
